@@ -498,12 +498,18 @@ def check_lazy_eager(ctx, F):
         for b in bodies:
             _, paths = rules.evaluate(b)
             for r in paths or []:
-                terms = ([r.ret] if r.ret is not None else []) + [e['result'] for e in r.events if e['kind'] == 'call']
+                terms = ([r.ret] if r.ret is not None else []) + [e['result'] for e in r.events if e['kind'] == 'call'] + [e['value'] for e in r.events if e['kind'] in ('write', 'write_ref')]
                 for t in terms:
                     for x in sym.subterms(rules.inline_pure(F, t)):
                         if not (isinstance(x, tuple) and x and x[0] == 'call' and str(x[1]).endswith(('Ord::min', 'cmp::min')) and len(x[2]) == 2):
                             continue
                         for conv, bound in ((x[2][0], x[2][1]), (x[2][1], x[2][0])):
+                            # a lower clamp in between (`max` with the running value keeps the table monotone) passes the conversion on
+                            while conv[0] == 'call' and str(conv[1]).endswith(('Ord::max', 'cmp::max')) and len(conv[2]) == 2:
+                                inner = [a for a in conv[2] if a[0] == 'cast']
+                                if len(inner) != 1:
+                                    break
+                                conv = inner[0]
                             if not (conv[0] == 'cast' and sym.contains(conv[2], lambda y: isinstance(y, tuple) and y and y[0] == 'bin' and y[1].split('.')[0] == 'Mul')):
                                 continue
                             bound = effects.strip_uid(bound)
@@ -525,6 +531,8 @@ def check_lazy_eager(ctx, F):
         ctx.bad('R4', role3, lazy[0].defpath, 'the eager constructor clamps scaled prefix sums to `%s - len` and the lazy model to `%s - len`: for tables that end in (near-)zero weights the two models built from the same probabilities differ in the last symbols' % (be[0][1], bl[0][1]), key=k3 + '/clamp-bound', loc=rules.loc(lazy[0]))
     elif pe and pl:
         ctx.ok('R4', role3, lazy[0].defpath, 'both clamp to the same free weight (%s - len)' % be[0][1], key=k3 + '/clamp-bound')
+    elif 'clamped' in shapes['eager'][0] and 'clamped' in shapes['lazy'][0]:
+        ctx.unresolved('R4', role3, lazy[0].defpath, 'both sides clamp their conversions, but the bound of the clamp was not found in the form `min(conversion, X - len)` (eager: %d, lazy: %d)' % (len(pe), len(pl)), key=k3 + '/clamp-bound')
     # the eager path pins the last boundary in its callers (push of wrapping_pow2); accept that
     if shapes['eager'][0] and shapes['lazy'][0] and shapes['eager'][0] != shapes['lazy'][0]:
         ctx.bad('R4', role3, lazy[0].defpath, 'the eager constructor converts prefix sums as %s and the lazy model as %s: near the upper end (where rounding pushes the scaled sum past the free weight) the two produce different tables for the same probabilities' % (sorted(shapes['eager'][0]), sorted(shapes['lazy'][0])), key=k3, loc=rules.loc(lazy[0]))
